@@ -25,6 +25,7 @@ class MemoSim:
         """
         log = []
         failed = getattr(trace, "failed", {})
+        fidx = {}       # elem -> number of failing executions replayed so far
 
         class _Abort(Exception):
             pass
@@ -49,7 +50,10 @@ class MemoSim:
                     if elem[1] is not None:
                         log.append(elem)
                     inner = elem if cached else caller
-                    for callee in failed[elem][0]:
+                    seq = getattr(trace, "failed_seq", {}).get(elem) or [failed[elem]]
+                    occ = fidx.get(elem, 0)
+                    fidx[elem] = occ + 1
+                    for callee in seq[min(occ, len(seq) - 1)][0]:
                         try:
                             run(callee, inner, False)
                         except _Abort:
